@@ -25,7 +25,7 @@ func TestVectors(t *testing.T) {
 		{"hdr3", "01 0102", Reject, ""},
 		{"hdr4", "01 010203", Accept, "msg{type=1 xid=010203 []}"},
 		{"relay33", "0c" + strings.Repeat("00", 32), Reject, ""},
-		{"relay34", "0d 05" + strings.Repeat("11", 16) + strings.Repeat("22", 16), Accept, "relay{type=13 hop=5 link=11111111111111111111111111111111 peer=22222222222222222222222222222222 []}"},
+		{"relay34", "0d 05" + strings.Repeat("11", 16) + strings.Repeat("22", 16), MayReject, "relay{type=13 hop=5 link=11111111111111111111111111111111 peer=22222222222222222222222222222222 []}"},
 		{"elapsed", "01 010203 0008 0002 0102", Accept, "8:elapsed-time{Centis=258}"},
 		{"elapsed3", "01 010203 0008 0003 010203", Reject, ""},
 		{"elapsed1", "01 010203 0008 0001 01", Reject, ""},
@@ -50,13 +50,13 @@ func TestVectors(t *testing.T) {
 		{"oro", "01 010203 0006 0004 0017 0018", Accept, "6:ORO{Codes=[23 24]}"},
 		{"oro-odd", "01 010203 0006 0003 0017 00", Reject, ""},
 		{"userclass-empty", "01 010203 000f 0000", Reject, ""},
-		{"userclass", "01 010203 000f 0005 0001 61 0000", Accept, `15:user-class{Items=["a" ""]}`},
+		{"userclass", "01 010203 000f 0005 0001 61 0000", MayReject, `15:user-class{Items=["a" ""]}`},
 		{"vendorclass-noitem", "01 010203 0010 0004 00000009", Reject, ""},
 		{"vendoropts", "01 010203 0011 000a 00000009 0001 0002 abcd", Accept, "17:vendor-opts{Enterprise=9 [1:opaque{Data=abcd}]}"},
 		{"vendoropts-bad", "01 010203 0011 0007 00000009 000100", Reject, ""},
 		{"dns15", "01 010203 0017 000f" + strings.Repeat("00", 15), Reject, ""},
 		{"domains", "01 010203 0018 000d 076578616d706c65 03636f6d 00", Accept, `24:domain-list{Names=["example.com"]}`},
-		{"domains-ptr", "01 010203 0018 0007 0161 00 0162 c000", Accept, `24:domain-list{Names=["a" "b.a"]}`},
+		{"domains-ptr", "01 010203 0018 0007 0161 00 0162 c000", MayReject, `24:domain-list{Names=["a" "b.a"]}`},
 		{"domains-overrun", "01 010203 0018 0003 056162", Reject, ""},
 		{"domains-reserved", "01 010203 0018 0002 4000", Unspecified, ""},
 		{"domains-ptr-out", "01 010203 0018 0002 c005", Unspecified, ""},
@@ -79,7 +79,36 @@ func TestVectors(t *testing.T) {
 		{"relay-msg", "0c 00" + strings.Repeat("00", 32) + "0009 0004 01 aabbcc", Accept, "9:relay-msg{ inner=msg{type=1 xid=aabbcc []}}"},
 		{"relay-msg-empty", "0c 00" + strings.Repeat("00", 32) + "0009 0000", Reject, ""},
 		{"relay-msg-inner-bad", "0c 00" + strings.Repeat("00", 32) + "0009 0005 01 aabbcc 00", Reject, ""},
-		{"relay-port", "0c 00" + strings.Repeat("00", 32) + "0087 0002 0223", Accept, "135:relay-port{Port=547}"},
+		{"relay-port", "0c 00" + strings.Repeat("00", 32) + "0087 0002 0223", MayReject, "135:relay-port{Port=547}"},
+		{"relay-port-with-msg", "0c 00" + strings.Repeat("00", 32) + "0087 0002 0223 0009 0004 01 aabbcc", Accept, "135:relay-port{Port=547}"},
+		{"userclass-ok", "01 010203 000f 0003 0001 61", Accept, `15:user-class{Items=["a"]}`},
+		{"oro-empty", "01 010203 0006 0000", MayReject, "6:ORO{Codes=[]}"},
+		{"dns-empty", "01 010203 0017 0000", MayReject, ""},
+		{"4o6-empty", "01 010203 0058 0000", Accept, "88:dhcp4o6-servers{Addrs=}"},
+		{"domains-empty", "01 010203 0018 0000", MayReject, ""},
+		{"domains-partial", "01 010203 0018 0002 0161", MayReject, `Names=["a"]`},
+		{"domains-root", "01 010203 0018 0001 00", MayReject, `Names=[""]`},
+		{"fqdn-flags-only", "01 010203 0027 0001 00", Accept, "39:FQDN{Flags=0 Names=[]}"},
+		{"fqdn-two", "01 010203 0027 0007 00 0161 00 0162 00", MayReject, `Names=["a" "b"]`},
+		{"fqdn-ptr", "01 010203 0027 0006 00 0161 00 c000", MayReject, ""},
+		{"ntp-empty", "01 010203 0038 0000", MayReject, ""},
+		{"ntp-two-sources", "01 010203 0038 0028 0001 0010 20010db8000000000000000000000001 0002 0010 ff050000000000000000000000000101", MayReject, ""},
+		{"ntp-fqdn", "01 010203 0038 0007 0003 0003 0161 00", Accept, `3:ntp-srv-fqdn{Names=["a"]}`},
+		{"ntp-fqdn-partial", "01 010203 0038 0006 0003 0002 0161", MayReject, ""},
+		{"ntp-fqdn-none", "01 010203 0038 0004 0003 0000", MayReject, ""},
+		{"vendoropts-empty", "01 010203 0011 0004 00000009", MayReject, ""},
+		{"bootparam-empty", "01 010203 003c 0000", MayReject, ""},
+		{"bootparam-zero-item", "01 010203 003c 0002 0000", MayReject, ""},
+		{"vendorclass-zero-item", "01 010203 0010 0006 00000009 0000", MayReject, ""},
+		{"duid-type-only", "01 010203 0001 0002 0005", MayReject, "1:client-id{DUIDType=5 Data=}"},
+		{"duid-ll-no-addr", "01 010203 0001 0004 0003 0001", MayReject, ""},
+		{"duid-129", "01 010203 0001 0083 0005" + strings.Repeat("ab", 129), MayReject, ""},
+		{"duid-128", "01 010203 0001 0082 0005" + strings.Repeat("ab", 128), Accept, ""},
+		{"4rd-empty", "01 010203 0061 0000", MayReject, ""},
+		{"4rd-map", "01 010203 0061 001c 0062 0018 18 30 10 00 c0000200 20010db8000000000000000000000000", Accept, ""},
+		{"4rd-two-nonmap", "01 010203 0061 002c 0062 0018 18 30 10 00 c0000200 20010db8000000000000000000000000 0063 0004 00000500 0063 0004 00000500", MayReject, ""},
+		{"mayreject-and-trailing", "01 010203 0006 0000 00", Reject, ""},
+		{"mayreject-and-unspecified", "01 010203 0006 0000 0018 0002 4000", Unspecified, ""},
 	} {
 		m, v, why := DecodeMessage(hx(tc.in))
 		if v != tc.v {
